@@ -35,11 +35,33 @@ impl<'a> Remote<'a> {
     pub fn schedule(&self) {
         instrument!(compio_log::Level::TRACE, "Remote::schedule", id = ?self.header().id);
 
-        let state = self.header().state.start_scheduling();
+        let mut state = self.header().state.start_scheduling();
 
         trace!(?state);
 
-        if state.is_scheduled() || state.is_completed() || state.is_cancelled() {
+        if state.is_scheduling() {
+            // Another waker is inside its scheduling section. Only the waker that set
+            // `SCHEDULING` may clear it: the executor waits for that flag before it frees
+            // the shared state, so clearing it here would unprotect the other waker.
+            if state.is_scheduled() || state.is_completed() || state.is_cancelled() {
+                return;
+            }
+            // The task was unscheduled meanwhile and `SCHEDULED` is now ours, so this wake
+            // has to be delivered: wait until the section is free and take it.
+            loop {
+                crate::yield_now();
+                state = self.header().state.start_scheduling();
+                if state.is_completed() || state.is_cancelled() {
+                    if !state.is_scheduling() {
+                        self.header().state.finish_scheduling();
+                    }
+                    return;
+                }
+                if !state.is_scheduling() {
+                    break;
+                }
+            }
+        } else if state.is_scheduled() || state.is_completed() || state.is_cancelled() {
             self.header().state.finish_scheduling();
             return;
         }
